@@ -61,7 +61,8 @@ def step (s : St) (toks : List String) : St × String :=
       let p : PostData := { mime := mime, params := ps, text := text }
       let j := marshalPD jenc p
       let rt := if unmarshalPD jdec j == some p then "ok" else "lossy"
-      (s, (if j.encoding.isSome then "base64 " else "text ") ++ (if rt == "ok" then hex j.text else "?") ++ " rt=" ++ rt)
+      (s, (if j.encoding.isSome then "base64 " else "text ") ++ (if rt == "ok" then hex j.text else "?") ++ " rt=" ++ rt
+            ++ " obj=" ++ hex (pdObj j))
     | _, _, _ => (s, "bad-op")
   | ["jsoncontent", b64, mime, text] =>
     match unhex mime, unhex text with
@@ -69,7 +70,8 @@ def step (s : St) (toks : List String) : St × String :=
       let c : Content := { size := text.length, mime := mime, text := text, base64 := b64 == "1" }
       let j := marshalContent jenc c
       let rt := if unmarshalContent jdec j == some c then "ok" else "lossy"
-      (s, (if j.encoding.isSome then "base64 " else "text ") ++ (if rt == "ok" then hex j.text else "?") ++ " rt=" ++ rt)
+      (s, (if j.encoding.isSome then "base64 " else "text ") ++ (if rt == "ok" then hex j.text else "?") ++ " rt=" ++ rt
+            ++ " obj=" ++ hex (contentObj j))
     | _, _ => (s, "bad-op")
   | ["jsonstr", "enc", x] =>
     match unhex x with
